@@ -95,6 +95,13 @@ def rand_prim(rng, o, allow_occ=True):
                     f['ge'] = str(D(rng.randint(-100, 100)) / 4)
                 if rng.random() < .5:
                     f['le'] = str(D(rng.randint(100, 400)) / 4)
+        elif kind == 'Double':
+            # a range that is open on one side, or closed on both (the special values INF / -INF / NaN are values of xs:double)
+            r = rng.random()
+            if r < .7:
+                f[rng.choice(('ge', 'gt'))] = str(float(rng.randint(-20, 5)))
+            if r > .3:
+                f[rng.choice(('le', 'lt'))] = str(float(rng.randint(6, 40)))
         elif kind == 'Unicode':
             r = rng.random()
             if r < .4:
@@ -635,8 +642,19 @@ def gen_prim_value(rng, kind, facets, alphabet='xml'):
         cands = [c for c in cands if (lo is None or c >= lo) and (hi is None or c <= hi)]
         return rng.choice(cands) if cands else None
     if kind == 'Double':
-        return rng.choice([0.0, -0.0, 1.5, -2.25, 1e16, 1e-7, 1e300, 5e-324, 0.1, 1 / 3, float(2 ** 53), 123456.789,
-                           rng.uniform(-1e6, 1e6), rng.uniform(-1, 1) * 10 ** rng.randint(-200, 200)])
+        cands = [0.0, -0.0, 1.5, -2.25, 1e16, 1e-7, 1e300, 5e-324, 0.1, 1 / 3, float(2 ** 53), 123456.789,
+                 rng.uniform(-1e6, 1e6), rng.uniform(-1, 1) * 10 ** rng.randint(-200, 200)]
+        rf = {k: float(v) for k, v in f.items() if k in ('ge', 'gt', 'le', 'lt')}
+        if rf:
+            for b in rf.values():
+                cands += [b, b + 0.5, b - 0.5, b + 1e-9, b - 1e-9]
+            if 'ge' not in rf and 'gt' not in rf:
+                cands += [-1e300, float('-inf')]
+            if 'le' not in rf and 'lt' not in rf:
+                cands += [1e300, float('inf')]
+            cands = [c for c in cands if ('ge' not in rf or c >= rf['ge']) and ('gt' not in rf or c > rf['gt']) and
+                     ('le' not in rf or c <= rf['le']) and ('lt' not in rf or c < rf['lt'])]
+        return rng.choice(cands) if cands else None
     if kind == 'Boolean':
         return rng.random() < .5
     if kind == 'Unicode':
